@@ -92,7 +92,7 @@ type Server struct {
 
 func (s Server) getRequestContext() *app.RequestContext {
 	if disabaleRequestContextPool {
-		return &app.RequestContext{}
+		return app.NewContext(0)
 	}
 	return s.Core.GetCtxPool().Get().(*app.RequestContext)
 }
